@@ -57,7 +57,7 @@ func queryHasFunc(q *gen.Query) bool {
 }
 
 // c12Compare relates a plain-mode call and an accessor-mode call of the same path on the same document.
-func c12Compare(plain, acc impl.CallResult, plainLog, accLog []spec.Call) (ok bool, kind, detail string) {
+func c12Compare(plain, acc impl.CallResult, plainLog, accLog []spec.Call, logLen func() int) (ok bool, kind, detail string) {
 	if plain.Panic != "" || acc.Panic != "" {
 		return false, "panic", fmt.Sprintf("panic: plain=%q accessor=%q", plain.Panic, acc.Panic)
 	}
@@ -68,6 +68,9 @@ func c12Compare(plain, acc impl.CallResult, plainLog, accLog []spec.Call) (ok bo
 		got, isAcc := impl.Unwrap(acc.Values)
 		if !isAcc {
 			return false, "not-accessor", fmt.Sprintf("accessor mode returned a non-Accessor result: %s", show(acc.Values))
+		}
+		if logLen != nil && logLen() != len(accLog) {
+			return false, "get-calls-function", fmt.Sprintf("reading the accessors (Get) called user functions %d more time(s)", logLen()-len(accLog))
 		}
 		if !sameValues(got, plain.Values) {
 			return false, "selection-differs", fmt.Sprintf("plain mode returns %s, accessors Get() %s", show(plain.Values), show(got))
@@ -122,7 +125,7 @@ func c12Oracle(j *productJob, c *run.Ctx, pc *pathCase, di, m int, out *spec.Out
 	if plain.ErrType == "" || len(plainLog) > 0 {
 		c.Nontrivial++
 	}
-	ok, kind, detail := c12Compare(plain, acc, plainLog, accLog)
+	ok, kind, detail := c12Compare(plain, acc, plainLog, accLog, func() int { return len(j.env.ImplLog) })
 	if ok {
 		if len(plainLog) > 1 && plain.ErrType == "" {
 			c.Sample(map[string]interface{}{"path": pc.r.Text, "doc": j.ds.text[di], "mode": modeName[m], "result": show(plain.Values), "function_calls": showLog(plainLog)})
@@ -138,7 +141,7 @@ func c12Oracle(j *productJob, c *run.Ctx, pc *pathCase, di, m int, out *spec.Out
 		l1 := append([]spec.Call{}, env.ImplLog...)
 		env.ResetImpl()
 		r2 := impl.Call(p2.F, fdoc)
-		if fok, fk, fd := c12Compare(r1, r2, l1, env.ImplLog); fok {
+		if fok, fk, fd := c12Compare(r1, r2, l1, env.ImplLog, func() int { return len(env.ImplLog) }); fok {
 			c.Add("history_dependence_seen", 1)
 			return
 		} else {
@@ -188,7 +191,7 @@ func init() {
 				l1 := append([]spec.Call{}, env.ImplLog...)
 				env.ResetImpl()
 				r2 := impl.Call(p2.F, doc)
-				ok, _, detail := c12Compare(r1, r2, l1, env.ImplLog)
+				ok, _, detail := c12Compare(r1, r2, l1, env.ImplLog, func() int { return len(env.ImplLog) })
 				return !ok, detail
 			})
 		},
